@@ -133,6 +133,10 @@ use hashbrown::{HashMap, HashSet};
 #[macro_use]
 mod macros;
 
+#[cfg(feature = "verif-hooks")]
+#[doc(hidden)]
+pub mod verif;
+
 cfg_not_std!(
     /// Re-export for DefaultHashBuilder
     pub type DefaultHashBuilder = hashbrown::DefaultHashBuilder;
